@@ -58,6 +58,12 @@ def cf_case(draw):
         w2 = np.array(c[kind]["w2"], float)
         c[kind]["w2"] = (w2 * np.array(draw(st.lists(st.sampled_from([1.0, 2.0, 0.5, 3.0]), min_size=w2.size, max_size=w2.size))).reshape(w2.shape)).tolist()
         c["auto_distinct_weights"] = True
+    if draw(st.integers(0, 29)) == 0:
+        # hundreds of patches (compact form, see gen.expand_counts)
+        P = draw(st.sampled_from([127, 128, 129, 255, 256, 257, 300]))
+        c["npatch"] = P
+        for kind in ["dd"] + c["present"]:
+            c[kind] = {"binning": c["binning"], "npatch": P, "auto": c[kind]["auto"], "expand": draw(st.integers(0, 2**32 - 1))}
     return c
 
 
@@ -80,8 +86,9 @@ def run_cf(case):
     from yaw import CorrFunc
 
     present = case["present"]
+    case = dict(case, **{k: gen.expand_counts(case[k]) for k in ["dd"] + present})
     zero_pairs = any((np.array(case[k]["counts"]).sum(axis=0) == 0).any() for k in ["dd"] + present)
-    ck = Checker(len(present) < 3 or zero_pairs, classes=["members:" + "+".join(present), "auto" if case["auto"] else "cross"] + (["signed-counts"] if case.get("signed") else []))
+    ck = Checker(len(present) < 3 or zero_pairs, classes=["members:" + "+".join(present), "auto" if case["auto"] else "cross"] + (["signed-counts"] if case.get("signed") else []) + (["patches>=127"] if case["npatch"] >= 127 else []))
     cf = gen.build_corrfunc(case)
     with Scratch() as tmp:
         path = tmp / "cf.hdf5"
